@@ -141,6 +141,43 @@ void h_fullmoves(void) {
 }
 #endif
 
+#ifdef HARNESS_h_force_abandon
+/* C02/C09: forced abandonment of a page: the drain of the delayed-free list that precedes it may free a block of this very
+   page and thereby move it from the full queue back to its size queue; the page must be unlinked from the queue it is in
+   at that moment, leaving both queues intact, and handed to the segment layer exactly once */
+static int n_seg_abandon, n_seg_free; static mi_page_t* abandoned_page;
+void _mi_segment_page_abandon(mi_page_t* page, mi_segments_tld_t* tld) { n_seg_abandon++; abandoned_page = page; }
+void _mi_segment_page_free(mi_page_t* page, bool force, mi_segments_tld_t* tld) { n_seg_free++; abandoned_page = page; }
+static mi_page_t* drain_target; static bool drain_moves;
+void stub_delayed_free_all_move(mi_heap_t* h) {
+  CHECK(h == &A, "drains the page's heap");
+  /* a delayed block of the page is freed by the drain: a full page returns to its size queue (real code) */
+  if (drain_moves && drain_target->flags.x.in_full) { drain_target->used--; _mi_page_unfull(drain_target); }
+}
+void h_force_abandon(void) {
+  make_heaps();
+#ifdef KPAGE
+  size_t k = KPAGE;
+#else
+  size_t k = 0;
+#endif
+  mi_page_t* p = &PA[k];
+  drain_target = p; drain_moves = nd_bool();
+  size_t cnt0 = A.page_count;
+  _mi_page_force_abandon(p);
+  CHECK(n_seg_abandon + n_seg_free == 1 && abandoned_page == p, "the page is handed to the segment layer exactly once");
+  CHECK(mi_page_heap(p) == NULL && p->next == NULL && p->prev == NULL, "an abandoned page belongs to no heap and no queue");
+  CHECK(!in_queue(&A.pages[BIN], p) && !in_queue(&A.pages[MI_BIN_FULL], p), "C02: the page is unlinked from whatever queue it was in after the drain (the old owner can no longer allocate from it)");
+  CHECK(A.page_count == cnt0 - 1, "page count decremented");
+  size_t nb = 0, nf = 0;
+  { mi_page_t* q = A.pages[BIN].first; mi_page_t* prev = NULL; for (int i = 0; i <= NP; i++) { if (q == NULL) break; CHECK(q->prev == prev && q != p, "size queue stays well-formed"); prev = q; q = q->next; nb++; } CHECK(q == NULL && A.pages[BIN].last == prev, "size queue last pointer"); }
+  { mi_page_t* q = A.pages[MI_BIN_FULL].first; mi_page_t* prev = NULL; for (int i = 0; i <= NP; i++) { if (q == NULL) break; CHECK(q->prev == prev && q != p, "full queue stays well-formed"); prev = q; q = q->next; nf++; } CHECK(q == NULL && A.pages[MI_BIN_FULL].last == prev, "full queue last pointer"); }
+  CHECK(nb + nf == NP - 1, "every other page is still in a queue");
+  if (drain_moves && a_full[k]) WITNESS("moved by the drain");
+  WITNESS("end");
+}
+#endif
+
 #ifdef VERIF_REPLAY
 int main(void) { VERIF_ENTRY(); return 0; }
 #endif
